@@ -94,7 +94,7 @@ def funwave_spectrum(darr, filename):
 
     # Amplitudes and phases
     amp = np.sqrt(darr * darr.spec.df * darr.spec.dd * 8) / 2
-    amp = amp.transpose()
+    amp = amp.transpose(attrs.DIRNAME, attrs.FREQNAME)
     nd, nf = amp.shape
     phi = np.random.uniform(0, 1, (nd, nf)) * 360.0
 
